@@ -22,6 +22,7 @@ vars == <<s, c, ready, res, g, n, hist>>
 
 C0(api) == [api |-> api, maxI |-> 16000, minI |-> 8000, desI |-> 16000, ms |-> 20, br |-> 24000, loss |-> 0, cx |-> 5, fec |-> 0,
             lbrr |-> 0, dtx |-> 0, cbr |-> 0, maxBits |-> 1000, toMono |-> 0, canSw |-> 0, redDep |-> 0, nAPI |-> 2, nInt |-> 1]
+TF8 == 8              \* cfg: TRANSITION_FRAMES <- TF8 abstracts the length of the ramp (the exact length is run separately)
 None == [kind |-> "none"]
 G0 == [mode |-> 0, start |-> 0, frames |-> 0]
 
@@ -44,8 +45,12 @@ RateChanges(cc) ==
   \cup {[cc EXCEPT !.loss = l, !.fec = IF l > 0 THEN 1 ELSE 0, !.lbrr = k] : l \in LossSet, k \in {0, 1}}
   \cup {[cc EXCEPT !.cbr = 1 - cc.cbr], [cc EXCEPT !.dtx = 1 - cc.dtx], [cc EXCEPT !.redDep = 1 - cc.redDep], [cc EXCEPT !.toMono = 1 - cc.toMono]}
 
+\* the part of the state before the call that the step theorems read
+PreOf(p) == [nInt |-> p.nInt, allow |-> p.allow, nbe |-> p.nbe,
+             ch |-> <<[fs |-> p.ch[1].fs, csl |-> p.ch[1].csl, lpTrans |-> p.ch[1].lpTrans, lpMode |-> p.ch[1].lpMode,
+                       desI |-> p.ch[1].desI, lbrrEn |-> p.ch[1].lbrrEn], [fs |-> p.ch[2].fs]>>]
 Summary(pre, cc, pf, nblk, r) ==
-  [kind |-> "call", pre |-> pre, c |-> cc, pf |-> pf, nblk |-> nblk, ret |-> r.ret, frames |-> r.frames, out |-> r.out,
+  [kind |-> "call", pre |-> PreOf(pre), c |-> cc, pf |-> pf, nblk |-> nblk, ret |-> r.ret, frames |-> r.frames, out |-> r.out,
    rdy |-> r.ready, maxBits |-> r.maxBits, paths |-> r.paths, ok |-> r.ok]
 
 Ghost(gg, pre, r) ==
@@ -56,10 +61,10 @@ Ghost(gg, pre, r) ==
   ELSE [mode |-> m, start |-> r.s.ch[1].lpTrans, frames |-> 0]
 
 Call(cc, pf, nblk, av, o) ==
-  LET r == Encode(s, cc, pf, nblk, av, o) IN
+  \E r \in {Encode(s, cc, pf, nblk, av, o)} :          \* (bound once; a LET would be re-evaluated at every use)
   /\ r.ok
   /\ s' = r.s /\ ready' = (r.ret = 0 /\ r.ready) /\ res' = Summary(s, cc, pf, nblk, r) /\ g' = Ghost(g, s, r)
-  /\ c' = [cc EXCEPT !.canSw = 0] /\ n' = n + 1
+  /\ c' = [cc EXCEPT !.canSw = 0] /\ n' = IF Depth > 0 THEN n + 1 ELSE 0
 
 CanSwSet == IF FreeCanSw THEN {0, 1} ELSE {IF ready THEN 1 ELSE 0}
 
